@@ -44,6 +44,8 @@ EMB = Emb("coarse", 20.0, 0.5, 10.0)       # 100 lattice units = 50 K, duties x 
 def _init():
     util_mod._init()
     _OP.update(util_mod._OP)
+    from OpenPinch.main import pinch_analysis_service
+    _OP["service"] = pinch_analysis_service
 
 
 def curve_from(streams):
@@ -163,6 +165,33 @@ def one_case(args):
     return dict(ev=ev, py=py, area=float(area), area_def=area_def, id=eid, gap=gap)
 
 
+def service_forms(args):
+    """the same problem through pinch_analysis_service with every number as a float / as a value-with-unit object, film coefficients
+    different from the default 1.0, and with all film coefficients doubled (the area is linear in the resistances)"""
+    idx, case = args
+    emb = EMB
+
+    def req(vu, hmul):
+        num = (lambda v, u: {"value": v, "units": u}) if vu else (lambda v, u: v)
+        st = []
+        for i, s_ in enumerate(case["S"]):
+            lo, hi = s_["lo"], s_["hi"]
+            ts, tt = (hi, lo) if s_["k"] == "H" else (lo, hi)
+            st.append(dict(zone="Z", name=f"S{i+1}", t_supply=num(emb.T(ts), "degC"), t_target=num(emb.T(tt), "degC"),
+                           heat_flow=num(emb.Q(s_["cp"] * (hi - lo)), "kW"), dt_cont=num(emb.dT(s_["dtc"]), "degC"),
+                           htc=num(hmul * (0.5 + 1.5 * ((i + idx) % 2)), "kW/m2K")))
+        return dict(streams=st, utilities=[], options={"DT_CONT": emb.dT(50), "DT_PHASE_CHANGE": emb.dT(10), "DO_AREA_TARGETING": True, "HTC": hmul * 1.0})   # default utilities take the option HTC
+    out = {}
+    for label, vu, hmul in (("float", False, 1.0), ("value_with_unit", True, 1.0), ("float_2h", False, 2.0)):
+        try:
+            _, site = _OP["service"](req(vu, hmul), project_name="Site", is_return_full_results=True)
+            t = site.subzones["Z"].targets["Z/Direct Integration"]
+            out[label] = [float(getattr(t, k)) for k in ("Area target", "Units target", "Capital cost target", "Annualised capital cost target")]
+        except Exception as e:
+            out[label] = repr(e)[:200]
+    return dict(idx=idx, out=out)
+
+
 def t_streams(coll):
     return list(coll._streams.values())
 
@@ -260,6 +289,25 @@ def check(prop, tier, run: Run, replay_case=None):
                     run.violation(c, dict(input=case, gap=r_["gap"]), dict(area=r_["area"], independent=r_["area_def"], judge="TLC", intervals=r_["ev"]["ints"][:6]), leg="T")
         run.cov["traces_validated_against_impl"] += len(evs)
         run.cov["samples"] = [dict(streams=evs[0][0]["S"], area=evs[0][1]["area"], intervals=evs[0][1]["ev"]["ints"][:4])]
+    # ---- the same problems through the service, numbers as floats and as value-with-unit objects (C15 x C16), resistances doubled
+    both = [c for c in cases if any(s_["k"] == "H" for s_ in c["S"]) and any(s_["k"] == "C" for s_ in c["S"])]
+    sel = sample(both, 150 if tier == "quick" else 1500, 16)
+    with Pool(16, initializer=_init) as pool:
+        fres = pool.map(service_forms, list(enumerate(sel)), chunksize=4)
+    for r_ in fres:
+        case, o = sel[r_["idx"]], r_["out"]
+        run.cov["evaluations"] += 3
+        run.cov["traces_validated_against_impl"] += 1
+        if any(isinstance(v, str) for v in o.values()):
+            if len({v if isinstance(v, str) else "ok" for v in o.values()}) > 1:          # one form raises, another does not
+                run.violation("C15.area_same_in_every_input_form", dict(input=case, gap=False), dict(forms=o), leg="T")
+            continue
+        a, b_, c_ = o["float"], o["value_with_unit"], o["float_2h"]
+        if any(abs(x - y) > 1e-9 * max(1.0, abs(x)) for x, y in zip(a, b_)):
+            run.violation("C15.area_same_in_every_input_form", dict(input=case, gap=False), dict(forms=o), leg="T")
+        if abs(a[0] - 2.0 * c_[0]) > 1e-6 * max(1.0, a[0]):
+            run.violation("C15.area_linear_in_film_resistances", dict(input=case, gap=False), dict(forms=o), leg="T")
+    run.notes["service_forms"] = dict(problems=len(sel), forms=["float", "value_with_unit", "float, film coefficients doubled"])
     run.cov["distinct_nontrivial"] = sum(1 for _, r_ in evs if len(r_["ev"]["ints"]) >= 3)
     run.cov["rule"] = ("cost laws: full parameter grid (TLC exhaustive, all replayed); area: stream multisets x isothermal ladders from the Utility.tla enumeration with "
                        "positive contributions (deterministic sample by VERIF_SEED); non-trivial = at least three enthalpy intervals")
